@@ -11,7 +11,7 @@ CHECKS = {
              '+= -= *= /= Transpose Real Imag == code is executed symbolically from its LLVM IR with every component, matrix entry and '
              'scalar a solver variable; the vector<->matrix map is pinned against the generalised Gell-Mann definition (layout d*i+j, '
              'Tr l_a l_b = 2 delta_ab) and each operation is decided against the corresponding matrix operation by z3 (LRA/NRA on the '
-             'normal-form residual, Float64 for exact Hermiticity, path-wise for operator==). Bounded: all inputs in the unit box for '
+             'normal-form residual, Float64 for exact Hermiticity, path-wise for operator== with owning and viewing operands in all four combinations). The matrix constructor is also run on strided views (a d x d block of a larger matrix whose other entries are symbolic) and decided identical to the compact case. Bounded: all inputs in the unit box for '
              'the toleranced identities (the maps are linear-homogeneous), exact reals instead of doubles.',
         note='Trusted: clang-14 -O1 IR as source semantics (diffed bit-for-bit against the g++ build on seeded inputs each run); GSL '
              'accessor shim harness/gsl_shim.c; exact-real arithmetic with a 1e-13 tolerance stands in for "up to rounding" '
@@ -33,7 +33,7 @@ CHECKS['C13'] = dict(
          'unconstrained 32-bit solver variable; z3 decides, per path, that the represented matrix (through the C01-pinned map) is the '
          'documented 0/1 diagonal as a function of the index, that exactly the inadmissible indices throw, and that '
          'PosProjector(d,k)+NegProjector(d,d-k)=Identity for 0<k<d with k shared symbolically between two executions. The index space '
-         'is finite, so the per-dimension verdict is exhaustive.',
+         'is finite, so the per-dimension verdict is exhaustive. Every factory is also run after a vector of the same dimension, filled with one symbolic value, was destroyed (its block may be handed back): the result must not depend on that value.',
     note='Trusted: clang-14 -O1 IR (every admissible call is also diffed interpreter-vs-native), GSL shim, z3. Dimensions outside 2..6 '
          'belong to C14.',
     design='§3 C13')
@@ -42,7 +42,7 @@ CHECKS['C17'] = dict(
          '(thorough 2..33) with a<b and x symbolic reals: grid shape (ends, monotone, equal spacing; log/exp as monotone inverse '
          'uninterpreted functions with listed lemma instances; (1+delta) rounding model for the linear end point), acceptance of user '
          'grids iff sorted and of the right size with exact storage, and Get_i bracketing on exact uniform grids and on arbitrary '
-         'strictly increasing symbolic grids (i<=nx-2, x_i<=x<=x_{i+1}, throws iff outside).',
+         'strictly increasing symbolic grids (i<=nx-2, x_i<=x<=x_{i+1}, throws iff outside). A log grid whose nodes are not exp of an affine function of log a, log b cannot be decided in the uninterpreted model and is confirmed or dismissed natively at node counts up to 200000 (end node within 8(1+|log a|+|log b|) ulp of b).',
     note='Trusted: clang-14 -O1 IR (interpreter-vs-native diff), std::string/operator new intrinsics, GSL shim for the Const members; '
          'exact reals stand in for doubles (the lookup only compares, so rounding enters through the grid values, which are symbolic).',
     design='§3 C17')
@@ -51,7 +51,7 @@ CHECKS['C03'] = dict(
          'H and the times symbolic; sin/cos calls become atoms keyed by their argument term and the solver identifies each argument '
          'with +-(E_j-E_k)t for a level pair (E from the C01-pinned map). With the instantiated lemmas (parity, circle, angle addition) '
          'z3 decides entry-wise conjugation exp(iHt)A exp(-iHt), preservation of scalar products, the group law t1 then t2 = t1+t2, '
-         't=0 identity (folded) and agreement of the two-step form, on the normal-form residuals.',
+         't=0 identity (folded), agreement of the two-step form, and of both forms when the result is assigned onto the evolved vector itself, on the normal-form residuals.',
     note='Trusted: as C01; sin/cos are uninterpreted atoms constrained only by the listed true lemmas (so the claim is for exact-real '
          'evaluation, large |t| argument rounding is outside); H restricted to the diagonal generators as the property states.',
     design='§3 C03')
@@ -181,14 +181,13 @@ CHECKS['C19'] = dict(
     text='squids::detail::cache<long,N> is instantiated from the real header in both configurations, compiled to LLVM IR, and translated '
          '(irsym/ir2c.py) to pointer-free C: private stack objects become locals, the shared cache object becomes scalar words, the 8-byte '
          'libatomic calls become atomic sections. CBMC (SAT, partial-order encoding of sequentially consistent threads) then decides, for '
-         'every interleaving of up to 3 concurrent operations (3 threads x 1 and 2 threads x (2+1), all insert/fetch patterns) after 0..N '
+         'every interleaving of up to 3 concurrent operations (2 threads x 1, 3 threads x 1 and 2 threads x (2+1), all insert/fetch patterns) after 0..N '
          'sequential inserts: fetches return only successfully inserted blocks, no block is returned twice, a fetched block is not also '
          'left in the cache, draining at quiescence yields exactly inserted minus fetched; compare-exchange loops are unwound with '
-         '--unwinding-assertions. Single owner (both configurations): every operation sequence of length 2N+2 behaves as a bounded LIFO. '
+         '--unwinding-assertions and every harness ends in an assert(0) reachability witness that must fail. Single owner (both configurations): every operation sequence of length 2N+2 behaves as a bounded LIFO. '
          'Counterexamples are confirmed on the REAL template by a schedule explorer that makes every compare-exchange a scheduling point.',
     note='Trusted: clang-14 -O1 IR; the IR->C translator (validated each run against the real template on 4000 random single-thread '
-         'operations per capacity/configuration); CBMC 6.11; sequential consistency; no spurious CAS failures. Bound: capacity 1 (all '
-         'scenarios) and 2 (seeded scenarios) in the quick tier, capacity 1..4 in the thorough tier; 4+ concurrent operations are outside.',
+         'operations per capacity/configuration); CBMC 6.11; sequential consistency; no spurious CAS failures. Bound: quick tier capacity 1 (all scenarios), 2 (all 2x1 scenarios + seeded 3-operation scenarios), 3 (2x1 scenarios); thorough capacity 1..4; 4+ concurrent operations are outside. A scenario on which CBMC does not finish within its cap is listed as NOT-EXPLORED in the output and evidence and claims nothing.',
     design='§3 C19, §2.3', engine='ir2c+cbmc',
     technique='IR -> flat-memory C translation + CBMC bounded model checking of all interleavings (SAT); counterexamples confirmed on the real template by schedule exploration')
 CHECKS['C07'] = dict(
@@ -199,10 +198,10 @@ CHECKS['C07'] = dict(
          'call sites checked to pass (2,5), hence whether matrix_exponential can throw for n=2..6; (3) dispatch with all 2n^2 entries '
          'symbolic: the diagonal shortcut is taken iff the matrix is diagonal and returns diag(exp a_ii), every other input reaches the '
          'estimator; (4) UTransform(V,scale): the matrix handed to the exponential is scale*S2M(V) and the result is E^dagger M E for the '
-         '(summarised, arbitrary) E it returns, also after a previous call in another dimension (thread-local scratch).',
+         '(summarised, arbitrary) E it returns, also after a previous call in another dimension (thread-local scratch); (5) order selection, scaling and repeated squaring: on a bidiagonal nilpotent 7x7 matrix with 12 symbolic parameters, for which every Pade order and every scaling is exact, the result is decided equal to exp(A) for scripted norm estimates that drive every order 3,5,7,9,13 (by norm and by ell veto) and scaling exponents s=0..2 (thorough ..5).',
     note='OUTSIDE: "equals exp(A) to a small multiple of machine precision times the conditioning, for every matrix, norm band and history": '
          'floating-point backward-error analysis through GSL\'s compiled LU, the randomised norm estimator and pow/log; also the theta_m '
-         'thresholds and the scaling/squaring stage (s, ell(B,13)) are not decided. The native replay compares with scipy.linalg.expm on '
+         'thresholds and the values of the estimators are not decided (the estimators are stubs in (5); ell(B,13) is scripted as 0, which holds on the property\'s domain). The native replay compares with scipy.linalg.expm on '
          'well-conditioned matrices in the norm band of the order concerned. Trusted: textbook Pade coefficients (2m-k)!/(k!(m-k)!).',
     design='§3 C07, §4')
 CHECKS['C12'] = dict(
@@ -220,17 +219,16 @@ CHECKS['C18'] = dict(
     text='NON-INTERFERENCE ARGUMENT, not an exploration of schedules (hence level "other"). (a) A static scan of the linked IR of the four '
          'library translation units shows no mutable non-thread-local global; the write sets of the public operation classes (vector '
          'algebra incl. rotations and the Pade matrix exponential; const queries GetExpectationValue/D (plain and averaging), '
-         'GetIntermediateState, Get_i on a solver built by another thread) are measured by executing the real code in the IR interpreter '
-         'under logical threads with an access monitor: every store must hit the calling thread\'s stack, heap blocks, buffers or its own '
+         'GetIntermediateState, Get_i on a solver built by another thread) are obtained by symbolic execution of the real IR '
+         'under logical threads with an access monitor -- with every component, time, angle and the query position symbolic (exact reals, branch feasibility by z3) for the arithmetic classes and the queries, with concrete doubles where the matrix exponential is involved: every store must hit the calling thread\'s stack, heap blocks, buffers or its own '
          'thread-local instances, never the shared solver or another thread\'s storage; results are bit-identical across threads and equal '
          'to the native single-thread run. (b) Vectors created under one thread are destroyed under another. (c) At thread exit the '
          'thread-local destructors the code registered are executed and the allocation ledger must be empty.',
     note='Schedules themselves are not enumerated: pthreads / TLS runtime have no encoding here and CBMC\'s concurrency mode cannot take '
          'this pointer-based code; if no operation writes memory another thread can access, every interleaving is race free and returns '
-         'the sequential values. The solver is not the deciding element for this property (concrete execution with a monitor + static '
-         'scan); assumed: GSL/libstdc++ thread safety for distinct objects, write sets independent of the data values used.',
+         'the sequential values. The solver only decides path feasibility here; the property assertion is on the (concrete) store targets of every explored path. Assumed: GSL/libstdc++ thread safety for distinct objects; for the runs with the matrix exponential, write sets independent of the data values used.',
     design='§3 C18, §4', category='other',
-    technique='write-set non-interference: static scan of the linked LLVM IR for shared mutable state + monitored execution of the real IR under logical threads with thread-exit destructor run (no solver verdict; schedules not explored)')
+    technique='write-set non-interference: static scan of the linked LLVM IR for shared mutable state + symbolic execution (all values symbolic where feasible) of the real IR under logical threads with a store monitor and thread-exit destructor run; schedules not explored')
 NA_REASON = 'check not built yet (framework under construction; see DESIGN.md)'
 NA = {}
 
@@ -262,7 +260,7 @@ m = {
          'kind_free_text': 'LLVM IR -> pointer-free C translator feeding CBMC 6.11 (bounded model checking of thread interleavings)'},
     ],
     'checks': checks,
-    'notes': 'see DESIGN.md; known_findings.json lists recorded/fixed defects',
+    'notes': 'see DESIGN.md (section 9 = as built, incl. which seeded changes each check catches); known_findings.txt lists recorded and fixed defects; seeded/ holds the 38 independently produced breaking changes; a deterministic sample of the z3 queries of every run is re-decided by cvc5 (evidence: cvc5_second_opinion)',
     'not_applicable': [{'property_id': p, 'reason': NA.get(p, NA_REASON)} for p in props if p not in CHECKS],
 }
 json.dump(m, open(os.path.join(HERE, 'MANIFEST.json'), 'w'), indent=1)
